@@ -55,6 +55,21 @@ CHECKS = {
    text="Exhaustive over the 10 align values x {absent, meet, slice} crossed with element and viewBox sizes in both aspect directions and origins (fractional, negative); zero-sized viewBoxes must disable rendering, incomplete ones give the identity. The 'hence' half of the property is model-checked on the specification; the real library must produce the spec's (sx, sy, tx, ty) by every route, and a viewBox-filling rect must land on the spec's image rectangle; size-supply routes (units, percentages, caller width/height as numbers or lengths, default to the viewBox) are rotated by seed; an ancestor's preserveAspectRatio must not leak into a nested svg.",
    note="Trusted: TLC, Rat.tla, Viewport.tla, XML assembly in the harness. Quick tier: 4 sizes per dimension; thorough: 10 element sizes x 8 viewBox sizes over six orders of magnitude.",
    design="5/C11"),
+ "C02": dict(
+   technique="TLA+ Seg/Affine over exact rationals (de Casteljau points, arcs as centre + conjugate semi-diameters + parameter interval); TLC enumerates segments x map histories with invariants Compose/EndpointsMap/PointsMap; each replayed through 9 API forms and compared point by point",
+   text="TLC enumerates the segment table (lines, quadratic/cubic Beziers incl. zero-length / coincident / collinear controls, circular and elliptical arcs with several rotations, extents, directions) x every sequence of <= 2 matrices from the class table (translation, rotations, reflections, uniform/anisotropic scales, shears, rotated anisotropic, ill-conditioned, general); the spec's image of every defining point and of the arc frame is the oracle at 9 parameters t. Forms: seg*M, seg*=M, seg*(A*B), seg*'matrix()', abs(path*M), path*=M+reify, subpath*=M, incrementally built and joined paths reified in place; plus every shape of MC_C06 x matrix (decomposition of shape*M = M applied to the untransformed decomposition).",
+   note="Trusted: TLC, Rat/Affine/Seg.tla, the on_param comparator (c + u cos th + v sin th in floats from exact data). Coordinates up to 1e3; tolerance 1e-9 x magnitude.",
+   design="5/C02"),
+ "C05": dict(
+   technique="TLA+ ArcF6 ('construct from the answer': ellipse + two parameter angles with rational cos/sin -> end points and the F.6.5 choice among the four candidate arcs) enumerated by TLC with invariants OnExpectedEllipse/StartAngleRight/EndAngleRight/LargeIffFlag; replayed through the Arc constructor and the path parser",
+   text="Exhaustive over centres x radii x rotations (multiples of 90, Pythagorean, beyond +-360) x ordered pairs of 12 parameter angles x 4 flag pairs; radii too small by 2/10/1000 at an exact half turn (F.6.6), negative radii, zero radii (line: points, length, bbox), coincident end points. The real arc must start/end exactly at the points, have the expected centre and signed extent, pass 9 on_param points and report rx/ry/rotation describing the same ellipse.",
+   note="Trusted: TLC, ArcF6.tla, the on_param / implicit-ellipse comparators. Tolerance 1e-9 x size, 1e-6 where the centre is a square root of an input rounding error (exact half turns). Radius-to-chord ratios up to 1e3 only through the scaled family.",
+   design="5/C05"),
+ "C06": dict(
+   technique="TLA+ Shapes (SVG 2 ch.10 equivalent paths, corner-radius auto/clamp table; invariants Connected, RadiiInRange) + PathOps geometry abstraction enumerated by TLC over shapes x transform classes; each built by 3 routes and decomposed 6 ways",
+   text="Every cell of the rect radius table (given/omitted/zero/over-large/percent for rx and ry) x sizes incl. zero, circle, ellipse, line, polyline/polygon with 0..6 points incl. repeats, x 9-14 transforms of every class; the spec's equivalent path (as start point + ordered edges) is the oracle for segments(), Path(shape), Path(shape.d()), abs(shape), reify() and the untransformed decomposition: straight edges exact, curved edges on the mapped ellipse inside the positive quarter; laws: shape == Path(shape) == Path(shape.d()), equal bbox and lengths in both forms.",
+   note="Trusted: TLC, Shapes.tla/PathOps.tla, the comparator. Exact == with Path(shape.d()) is only demanded when every number survives d()'s number format (12 digits, 6 for arc radii - the C07 finding).",
+   design="5/C06"),
 }
 NOT_BUILT = "check not built yet (planned: DESIGN.md section 5)"
 
